@@ -10,7 +10,7 @@ sed -i "s#/repo#$R#g" harness/Cargo.toml check
 ./setup.sh >/dev/null 2>&1 || { echo "setup failed"; exit 1; }
 for d in seeded/S*; do
   p=$(python3 -c "import json,sys; print(json.load(open('$d/meta.json'))['breaks_property'])")
-  git -C "$R" apply "$d/patch.diff" 2>/dev/null || { echo "$d $p PATCH-DOES-NOT-APPLY"; continue; }
+  git -C "$R" apply "$PWD/$d/patch.diff" 2>/dev/null || { echo "$d $p PATCH-DOES-NOT-APPLY"; continue; }
   out=$(./check "$p" 2>&1 | grep -E "^VIOLATION|^OK" | head -1 | cut -c1-120)
   echo "$d $p :: $out"
   git -C "$R" checkout -q -- .
